@@ -229,6 +229,11 @@ pub fn assemble<S>(
             assembly.defs.as_mut().unwrap(),
             opts.max_iterations)?);
 
+        // Failed `#assert` directives report their errors without
+        // interrupting the final pass (so all of them are listed);
+        // no output must be produced in that case
+        report.stop_at_errors()?;
+
         output::check_bank_overlap(
             report,
             assembly.decls.as_ref().unwrap(),
